@@ -161,14 +161,23 @@ func MergeMain(args []string) {
 		if len(files) >= 2 {
 			chain := make([]AFile, len(files))
 			copy(chain, files)
+			// the base files live in another directory than the file that is loaded: empty / relative working
+			// directories of the base's processes resolve against the base file's directory
+			based := filepath.Join(dir, "based")
+			_ = os.MkdirAll(based, 0o755)
 			for k := 1; k < len(chain); k++ {
 				chain[k].Extends = fmt.Sprintf("x%d.yaml", k-1)
 			}
+			chain[len(chain)-1].Extends = fmt.Sprintf("based/x%d.yaml", len(chain)-2)
 			var last string
 			for k := range chain {
-				last = writeFile(dir, fmt.Sprintf("x%d.yaml", k), chain[k].Render())
+				d := based
+				if k == len(chain)-1 {
+					d = dir
+				}
+				last = writeFile(d, fmt.Sprintf("x%d.yaml", k), chain[k].Render())
 			}
-			mergeRecord(rec, id+"-ext", "extends", files, []string{last}, dir)
+			mergeRecord(rec, id+"-ext", "extends", files, []string{last}, based)
 		}
 		n++
 	}
@@ -295,13 +304,17 @@ func projectLoaded(project *types.Project) []map[string]any {
 	for _, n := range names {
 		p := project.Processes[n]
 		fields := []KV{{"command", p.Command}, {"working_dir", p.WorkingDir}, {"log_location", p.LogLocation}, {"description", p.Description}}
-		if p.ReadinessProbe != nil {
-			if p.ReadinessProbe.Exec != nil {
-				fields = append(fields, KV{"probe.exec.command", p.ReadinessProbe.Exec.Command})
+		probe := p.ReadinessProbe
+		if probe == nil {
+			probe = p.LivenessProbe // the generator configures one probe per process, of either kind
+		}
+		if probe != nil {
+			if probe.Exec != nil {
+				fields = append(fields, KV{"probe.exec.command", probe.Exec.Command})
 			}
-			if p.ReadinessProbe.HttpGet != nil {
-				fields = append(fields, KV{"probe.http.host", p.ReadinessProbe.HttpGet.Host}, KV{"probe.http.path", p.ReadinessProbe.HttpGet.Path},
-					KV{"probe.http.port", p.ReadinessProbe.HttpGet.Port})
+			if probe.HttpGet != nil {
+				fields = append(fields, KV{"probe.http.host", probe.HttpGet.Host}, KV{"probe.http.path", probe.HttpGet.Path},
+					KV{"probe.http.port", probe.HttpGet.Port})
 			}
 		}
 		out = append(out, map[string]any{"rname": n, "name": p.Name, "num": p.ReplicaNum, "replicas": p.Replicas, "ns": p.Namespace,
@@ -332,6 +345,18 @@ func findAliasing(project *types.Project) []string {
 				}
 				if a.ReadinessProbe.HttpGet != nil && a.ReadinessProbe.HttpGet == b.ReadinessProbe.HttpGet {
 					found["readiness_probe.http_get"] = true
+				}
+			}
+		}
+		if a.LivenessProbe != nil && b.LivenessProbe != nil {
+			if a.LivenessProbe == b.LivenessProbe {
+				found["liveness_probe"] = true
+			} else {
+				if a.LivenessProbe.Exec != nil && a.LivenessProbe.Exec == b.LivenessProbe.Exec {
+					found["liveness_probe.exec"] = true
+				}
+				if a.LivenessProbe.HttpGet != nil && a.LivenessProbe.HttpGet == b.LivenessProbe.HttpGet {
+					found["liveness_probe.http_get"] = true
 				}
 			}
 		}
@@ -464,6 +489,7 @@ func LoadMain(args []string) {
 					ap.ProbeKind = ""
 				}
 			}
+			ap.ProbeLive = r.Intn(3) == 0 // a liveness probe instead of a readiness probe
 			if r.Intn(4) == 0 {
 				ap.Opts = append(ap.Opts, KV{"namespace", "ns" + strconv.Itoa(pi)})
 				lp.NsSet = true
